@@ -121,7 +121,7 @@ def _worker(args):
 
 def run(ev, tier, seen, record):
     from concurrent.futures import ProcessPoolExecutor
-    n = 192 if tier == "quick" else 6000
+    n = 192 if tier == "quick" else 20000
     names = sorted(targets())
     covered, uncovered = [], []
     with ProcessPoolExecutor(max_workers=min(NCPU, len(names))) as ex:
